@@ -633,6 +633,50 @@ fn templates() -> Vec<(&'static str, Cfg, Vec<Ev>)> {
             Ev::Inject(2, 4, M::Rvr(4, true, 2), true, true),       // E leader of term 4 without entry 2
         ],
     ));
+    // T3: split election; the voter hears the winner's first heartbeat, THEN the loser's delayed
+    // RequestVote of the same term. A voter that forgets its vote when it accepts an AppendEntries
+    // of its current term grants a second vote: two leaders in one term.
+    for (name, cfg, rv, hb_entries) in [
+        ("late-vote-request-after-heartbeat", cfg3(), M::Rv(1, 1, 0, 0), vec![]),
+        ("late-vote-request-after-append", cfg3(), M::Rv(1, 1, 0, 0), vec![(1u64, 71u64)]),
+        ("late-better-vote-request-after-heartbeat", cfg3(), M::Rv(1, 1, 5, 1), vec![]),
+    ] {
+        let mut evs = vec![
+            Ev::Timeout(0, true),                                   // A candidate term 1
+            Ev::Timeout(1, true),                                   // B candidate term 1
+            Ev::Inject(0, 2, M::Rv(1, 0, 0, 0), true, true),        // C votes for A
+            Ev::Inject(2, 0, M::Rvr(1, true, 2), true, true),       // A leader term 1
+        ];
+        if !hb_entries.is_empty() {
+            evs.push(Ev::Propose(0, 71, true));
+        }
+        evs.push(Ev::Inject(0, 2, M::Ae(1, 0, 0, 0, 0, hb_entries), true, true)); // C accepts, same term
+        evs.push(Ev::Inject(1, 2, rv, true, true));                 // B's delayed RequestVote reaches C
+        evs.push(Ev::Deliver(usize::MAX, true, true));              // C's real answer goes to B
+        evs.push(Ev::Propose(1, 72, true));                         // if B became leader it now diverges
+        evs.push(Ev::Replicate(1, 2));
+        evs.push(Ev::Deliver(usize::MAX, true, true));
+        evs.push(Ev::Deliver(usize::MAX, true, true));
+        v.push((name, cfg, evs));
+    }
+    // T4: the same with 5 voters: two disjoint pairs vote, the fifth voter hears the heartbeat first
+    v.push((
+        "late-vote-request-after-heartbeat-5",
+        cfg5(),
+        vec![
+            Ev::Timeout(0, true),
+            Ev::Timeout(1, true),
+            Ev::Inject(0, 2, M::Rv(1, 0, 0, 0), true, true),        // C -> A
+            Ev::Inject(1, 3, M::Rv(1, 1, 0, 0), true, true),        // D -> B
+            Ev::Inject(0, 4, M::Rv(1, 0, 0, 0), true, true),        // E -> A
+            Ev::Inject(2, 0, M::Rvr(1, true, 2), true, true),
+            Ev::Inject(4, 0, M::Rvr(1, true, 4), true, true),       // A leader (A, C, E)
+            Ev::Inject(3, 1, M::Rvr(1, true, 3), true, true),       // B has B, D
+            Ev::Inject(0, 4, M::Ae(1, 0, 0, 0, 0, vec![]), true, true), // E hears A's heartbeat
+            Ev::Inject(1, 4, M::Rv(1, 1, 0, 0), true, true),        // B's delayed RequestVote reaches E
+            Ev::Deliver(usize::MAX, true, true),                    // E's real answer goes to B
+        ],
+    ));
     v
 }
 
